@@ -356,6 +356,44 @@ func runC07(o *Out) {
 			}
 		}
 	}
+	// a later record of a stream cut short: an error, also for a caller that asks
+	// the stopped scanner again before reading its verdict
+	for _, pair := range [][2]string{{smallRecord, smallRecord}, {contigRecord, smallRecord}, {smallRecord, contigRecord}} {
+		stream := pair[0] + pair[1]
+		step := 1
+		if o.Tier != "thorough" {
+			step = 3
+		}
+		for cut := len(pair[0]) + 1 + int(o.Seed)%step; cut < len(strings.TrimRight(stream, "\n")); cut += step {
+			t := stream[:cut]
+			res := o.Run("truncate-later-record", true, "gb_scan", hxs(t))
+			out := parseScanResult(res)
+			if out.status == "panic" || out.status == "hang" {
+				o.Violate("reader-"+out.status, join("gb_scan", hxs(t)), "stream cut in its second record")
+			} else if out.clean {
+				o.Violate("truncated-read-as-complete", join("gb_scan", hxs(t)), fmt.Sprintf("two-record stream cut at %d of %d: %d records, no error", cut, len(stream), out.nrec))
+			}
+		}
+	}
+	// the gap after the LOCUS keyword sets the indent of the whole header: records
+	// indented far wider than usual, whole and cut short
+	for _, w := range []int{13, 20, 33, 34, 40, 45, 46, 47, 60, 90} {
+		for _, base := range []string{smallRecord, contigRecord} {
+			t := widenHeader(base, w)
+			res := o.Run("wide-indent", true, "gb_scan", hxs(t))
+			if res == "panic" || res == "hang" {
+				o.Violate("reader-"+res, join("gb_scan", hxs(t)), fmt.Sprintf("header indented by %d", w))
+			} else if out := parseScanResult(res); !out.clean || out.nrec != 1 {
+				o.Violate("wide-indent-record-rejected", join("gb_scan", hxs(t)), fmt.Sprintf("header indented by %d", w))
+			}
+			for cut := 1 + int(o.Seed)%5; cut < len(t); cut += 5 {
+				res := o.Run("wide-indent-truncated", true, "gb_scan", hxs(t[:cut]))
+				if res == "panic" || res == "hang" {
+					o.Violate("reader-"+res, join("gb_scan", hxs(t[:cut])), fmt.Sprintf("header indented by %d, cut at %d", w, cut))
+				}
+			}
+		}
+	}
 	// regression inputs named by the property
 	for _, t := range []string{
 		strings.Replace(smallRecord, "DBLINK      BioProject: PRJNA1", "DBLINK      BioProject:", 1),
@@ -404,6 +442,26 @@ func runC07(o *Out) {
 	if o.Tier == "thorough" {
 		runC07Timing(o)
 	}
+}
+
+// widenHeader re-indents the header fields (everything before FEATURES) of a
+// record written with the usual indent of 12 to an indent of w.
+func widenHeader(text string, w int) string {
+	lines := strings.SplitAfter(text, "\n")
+	var b strings.Builder
+	header := true
+	for _, ln := range lines {
+		if strings.HasPrefix(ln, "FEATURES") || strings.HasPrefix(ln, "ORIGIN") || strings.HasPrefix(ln, "//") {
+			header = false
+		}
+		if !(header || strings.HasPrefix(ln, "CONTIG")) || len(ln) < 12 {
+			b.WriteString(ln)
+			continue
+		}
+		name := strings.TrimRight(ln[:12], " ")
+		b.WriteString(name + strings.Repeat(" ", w-len(name)) + ln[12:])
+	}
+	return b.String()
 }
 
 // strMutants: valid strings and their mutants for the string interpreters
